@@ -44,5 +44,9 @@ def load():
     f = os.path.realpath(j1939.__file__)
     if not f.startswith(os.path.realpath(REPO) + os.sep):
         raise rt.HarnessError("j1939 imported from %s, not from %s" % (f, REPO))
+    # the library print()s diagnostics for unsupported multi-PG formats: keep stdout for verdicts
+    for m in list(sys.modules.values()):
+        if getattr(m, '__name__', '').startswith('j1939.'):
+            m.__dict__['print'] = lambda *a, **k: None
     _j1939 = j1939
     return j1939
